@@ -168,6 +168,30 @@ def family(tier):
             c.add(g, 0, group=True, name="7")
     deg("group named 7", odd_group_name)
     deg("group named ''", lambda c: c.add(lw.Circuit(2), 0, group=True, name=""))
+    # group names of every shape a user may give: long single words, long names with blanks, exactly at a typical width limit, blanks only, unicode, and a
+    # named group added again without a name (the name is inherited), with and without heralds
+    for nm_ in ("Interferometer", "Interferometer1234567890", "TwelveChars.", "Thirteen.Char", "a b", "CNOT Heralded (0, 1) extended", " leading", "trailing ", "   ", "Δφ-block", "x" * 40):
+        def named(c, nm_=nm_):
+            g = lw.Circuit(2)
+            g.bs(0)
+            c.add(g, 0, group=True, name=nm_)
+        deg(f"group named {nm_!r}", named)
+
+        def named_heralded(c, nm_=nm_):
+            g = lw.Circuit(3)
+            g.bs(0)
+            g.bs(1)
+            g.herald(0, 2)
+            c.add(g, 0, name=nm_)
+        deg(f"heralded group named {nm_!r}", named_heralded, n=4)
+
+    def inherited(c):
+        g = lw.Circuit(2)
+        g.ps(0, 0.3)
+        holder = lw.Circuit(2)
+        holder.add(g, 0, group=True, name="Interferometer")
+        c.add(holder, 1)
+    deg("group name inherited from a single-group circuit", inherited)
 
     def herald_empty_barrier(c):
         c.herald(2, 0)
